@@ -89,6 +89,16 @@ Theorem T01_keepalive_stateless : forall tag (before after : list mreq) r,
 Proof. exact keepalive_stateless. Qed.
 Print Assumptions T01_keepalive_stateless.
 
+(* All clauses at once: for EVERY request the model's output satisfies the predicate that each run evaluates
+   on the real modifier stack (scase_prop_ok: per field name the documented behaviour; refusal only for a loop
+   (400) or contradictory Content-Length fields). *)
+Theorem T01_model_satisfies_oracle : forall tag r,
+  tag_ok tag = true -> q_maj r < 10 -> q_min r < 10 ->
+  (str_eqb (q_method r) m_connect = true \/ tag_ok (client_ip r) = true) ->
+  scase_prop_ok {| s_tag := tag; s_in := r; s_out := result_of (modify_request tag r) |} = true.
+Proof. exact f01_model_satisfies_oracle. Qed.
+Print Assumptions T01_model_satisfies_oracle.
+
 (* The stack is the written-out composition, in the source's order. *)
 Theorem T01_stack_order : forall tag r, modify_request tag r = pipeline tag r.
 Proof. exact f01_modify_is_pipeline. Qed.
